@@ -252,7 +252,32 @@ def canon_block(stmts: list) -> list:
         out.extend(_canon_stmt(s))
     out = _accumulations(out)
     out = _search_loops(out)
+    out = [_loop_append(s) for s in out]
     return out
+
+
+def _loop_append(s):
+    """`for t in it: [if c:] X.append(e)` (X any receiver that does not depend on the loop)  ->  `X.extend(e for t in it if c)`"""
+    if not isinstance(s, ast.For) or s.orelse:
+        return s
+    fb = _loop_filter_body(s.body)
+    if fb is None:
+        return s
+    conds, act = fb
+    if not (isinstance(act, ast.Expr) and isinstance(act.value, ast.Call) and isinstance(act.value.func, ast.Attribute)
+            and act.value.func.attr == 'append' and len(act.value.args) == 1 and not act.value.keywords):
+        return s
+    recv = act.value.func.value
+    tn = _target_names(s.target)
+    if any(mentions(t, recv) for t in tn) or has_node([recv], (ast.Call,)):
+        return s
+    rn = ast.unparse(recv)
+    if any(ast.unparse(n) == rn for x in [s.iter, act.value.args[0]] + conds for n in ast.walk(x) if isinstance(n, (ast.Name, ast.Attribute))):
+        return s
+    gen = ast.comprehension(target=s.target, iter=s.iter, ifs=([_and(conds, s)] if conds else []), is_async=0)
+    call = ast.Call(func=ast.Attribute(value=recv, attr='extend', ctx=ast.Load()),
+                    args=[ast.GeneratorExp(elt=act.value.args[0], generators=[gen])], keywords=[])
+    return at(ast.Expr(value=call), s)
 
 
 def _canon_stmt(s) -> list:
@@ -455,8 +480,8 @@ def _search_loops(stmts: list) -> list:
                 del out[j + 1]
                 changed = True
                 break
-            # validation loop: `for t in it: if c: raise E`  ->  `if any(c for t in it): raise E`
-            if len(inner) == 1 and isinstance(inner[0], ast.Raise) and not any(mentions(t, inner[0]) for t in tn):
+            # validation / guard loop: `for t in it: if c: raise E | return V`  ->  `if any(c for t in it): raise E | return V`
+            if len(inner) == 1 and isinstance(inner[0], (ast.Raise, ast.Return)) and not any(mentions(t, inner[0]) for t in tn):
                 out[j] = at(ast.If(test=any_of(c), body=[inner[0]], orelse=[]), s)
                 changed = True
                 break
@@ -482,6 +507,48 @@ def _search_loops(stmts: list) -> list:
                 del out[i]
                 changed = True
                 break
+    return out
+
+
+# ----------------------------------------------------------------------- local aliases of attributes
+def _fresh_container(e) -> bool:
+    if isinstance(e, (ast.List, ast.Dict, ast.Set, ast.ListComp, ast.DictComp, ast.SetComp)):
+        return True
+    return isinstance(e, ast.Call) and isinstance(e.func, ast.Name) and e.func.id in ('list', 'dict', 'set')
+
+
+def attribute_aliases(stmts: list) -> list:
+    """`x = <fresh container>` ... `self.a = x` ... uses of x   ->   `self.a = <fresh container>` ... uses of self.a
+    (top-level statements of the function only; x assigned once, self.a stored once, nothing in between touches self)."""
+    out = list(stmts)
+    whole = ast.Module(body=out, type_ignores=[])
+    for j, s in enumerate(out):
+        if not (isinstance(s, ast.Assign) and len(s.targets) == 1 and isinstance(s.targets[0], ast.Attribute)
+                and isinstance(s.targets[0].value, ast.Name) and s.targets[0].value.id == 'self' and isinstance(s.value, ast.Name)):
+            continue
+        x, attr = s.value.id, s.targets[0].attr
+        defs = [i for i, t in enumerate(out[:j]) if _single_name_assign(t)[0] == x]
+        if len(defs) != 1 or not _fresh_container(_single_name_assign(out[defs[0]])[1]):
+            continue
+        i = defs[0]
+        n_store_x = sum(1 for n in ast.walk(whole) if isinstance(n, ast.Name) and n.id == x and isinstance(n.ctx, (ast.Store, ast.Del)))
+        n_store_a = sum(1 for n in ast.walk(whole) if isinstance(n, ast.Attribute) and n.attr == attr and isinstance(n.ctx, (ast.Store, ast.Del))
+                        and isinstance(n.value, ast.Name) and n.value.id == 'self')
+        if n_store_x != 1 or n_store_a != 1:
+            continue
+        if any(mentions('self', t) for t in out[i:j]):
+            continue
+        # x must not escape into a nested function (late binding) - keep it simple
+        if any(isinstance(n, (ast.FunctionDef, ast.Lambda)) and mentions(x, n) for n in ast.walk(whole)):
+            continue
+        new_def = at(ast.Assign(targets=[clone(s.targets[0])], value=_single_name_assign(out[i])[1]), out[i])
+        rep = {x: _load(s.targets[0])}
+        res = out[:i] + [new_def]
+        for t in out[i + 1:j] + out[j + 1:]:
+            res.append(Subst(rep).visit(t))
+        for t in res:
+            ast.fix_missing_locations(t)
+        return attribute_aliases(res)
     return out
 
 
@@ -640,6 +707,7 @@ class Normalizer:
             body = self.inline_block(body, fi, 0)
             body = self.unroll_block(body, fi)
             body = fold_trivial(body)
+            body = attribute_aliases(body)
             body = canon_block(body)
             body = lift_ifexp(body)
             if not body:
@@ -1147,6 +1215,9 @@ class Normalizer:
                     return [ast.Tuple(elts=[k, v], ctx=ast.Load()) for k, v in zip(t.keys, t.values)]
                 return list(t.keys if it.func.attr == 'keys' else t.values)
             return None
+        if isinstance(it, (ast.Tuple, ast.List)) and 0 < len(it.elts) <= 8 and not any(isinstance(e, ast.Starred) for e in it.elts) \
+                and all(_atomic(e) or (isinstance(e, (ast.Tuple, ast.List)) and all(_atomic(x) for x in e.elts)) for e in it.elts):
+            return list(it.elts)        # a loop over a literal tuple of names / constants
         t = self.const_table(it, fi)
         if isinstance(t, (ast.Tuple, ast.List)):
             return list(t.elts)
